@@ -10,7 +10,7 @@ def instances(tier, seed):
     for n, e in ((2, 1), (4, 1), (8, 1)):  # calibrated: extension factor >= 2 does not finish (20 min / OOM)
         d = n * e
         for k in range(-2 * d, 2 * d + 1):
-            core = (n, e) == (4, 1) and k in (1, -1, 3, 4, 5, -4, 7, 8)
+            core = n in (2, 4)  # complete over k in [-2N, 2N] for N in {2,4} (16 s each); N=8 sampled
             out.append(Instance(crate="hk_binfhe", family="lut.rotate", name=f"c14_rotate_n{n}_e{e}_k{sgn(k)}", call=f"crate::c14::lut_rotate::<{n}, {e}, {d}>({k})", unwind=d + 8,
                                 params={"n": n, "extension_factor": e, "k": k}, symbolic=["every table word |x|<2^62"], functions=[f"{L}::lookup_table_rotate"], timeout=1200, mem_gb=16, core=core))
     for n, fl, b, k, s in ((4, 4, 17, 17, 1), (4, 2, 17, 18, 2), (4, 1, 17, 20, 2), (8, 4, 4, 5, 2), (8, 8, 17, 34, 2), (8, 2, 17, 17, 2), (4, 4, 4, 8, 2)):
@@ -21,7 +21,7 @@ def instances(tier, seed):
 
 
 META = {
-    "bounds": "rotate: extension factor 1, N in {2,4,8}, every k in [-2N, 2N], one limb; set: extension factor 1, N in {4,8}, table length dividing N, (base2k,k) in {(17,17),(17,18),(17,20),(4,5),(17,34),(4,8)}",
+    "bounds": "rotate: extension factor 1, one limb, EVERY k in [-2N, 2N] for N in {2,4} on every run (quick tier included), N=8 sampled per seed (all k in the thorough tier); set: extension factor 1, N in {4,8}, table length dividing N, (base2k,k) in {(17,17),(17,18),(17,20),(4,5),(17,34),(4,8)}",
     "outside": "the blind path (BlindRotationKeyPrepared::execute: external products through the DFT), mod_switch_2n (its two branches keep a different number of bits; its documented rounding could not be pinned down well enough to write an oracle that never false-alarms), set AND rotate with extension factor > 1 (Kani does not finish within 20 min / 16 GB: Vec-of-VecZnx tables and per-call ScratchOwned allocations; the interleaving oracle for them is validated natively only), set_xai_plus_y",
     "assumptions": ["oracles validated natively against the current code on concrete tables (cargo test of harness/hk_binfhe)"],
     "stubs": [],
